@@ -371,4 +371,15 @@ def generateCalls {δ : Type} (reset : Bool) (descs : List δ) : Nat → List δ
     let pl := preparePlugins reset st descs
     pluginLoop pl descs 0 :: generateCalls reset descs n pl
 
+/-- what each execution finds in `req.PluginParameters`: the request is ONE object shared by all plugin
+executions and all languages; before each execution the loop assigns `Pack(UsedPlugins[i].Options)`.
+`cur` = the field's value left behind by whoever ran before (previous plugin, SDK plugin, previous -g). -/
+def paramsSeen (descs : List (List Opt)) (cur : List Bytes) : List (List Bytes) × List Bytes :=
+  descs.foldl (fun (acc : List (List Bytes) × List Bytes) opts => (acc.1 ++ [pack opts], pack opts)) ([], cur)
+
+/-- the same over `n` successive `Generate` calls (one per `-g`) on the shared request -/
+def paramsSeenCalls (descs : List (List Opt)) : Nat → List Bytes → List (List (List Bytes))
+  | 0, _ => []
+  | n + 1, cur => (paramsSeen descs cur).1 :: paramsSeenCalls descs n (paramsSeen descs cur).2
+
 end Plugin
